@@ -156,7 +156,7 @@ class Array:
         if isinstance(new_dtype, Dtype):
             if new_dtype.length is None or new_dtype.length == 0:
                 raise ValueError(f"A fixed, non-zero length format is needed for an Array, received '{new_dtype}'.")
-            self._dtype = new_dtype
+            dtype = new_dtype
         else:
             try:
                 dtype = Dtype(new_dtype)
@@ -168,9 +168,9 @@ class Array:
                     raise ValueError(f"Inappropriate Dtype for Array: '{new_dtype}'.")
             if dtype.length is None or dtype.length == 0:
                 raise ValueError(f"A fixed, non-zero length format is needed for an Array, received '{new_dtype}'.")
-            self._dtype = dtype
-        if self._dtype.scale == 'auto':
+        if dtype.scale == 'auto':
             raise ValueError("A Dtype with an 'auto' scale factor can only be used when creating a new Array.")
+        self._dtype = dtype
 
     def _create_element(self, value: ElementType) -> Bits:
         """Create Bits from value according to the token_name and token_length"""
